@@ -154,7 +154,7 @@ func (p *stateProfile) note(format string, a ...interface{}) {
 // op performs one random environment operation on the API.
 func (p *stateProfile) op() {
 	st := p.s.store
-	switch p.ch.Pick("state.op", 17) - 1 {
+	switch p.ch.Pick("state.op", 18) - 1 {
 	case -1: // no operation (the minimiser's default)
 	case 0, 1: // create NodeClaim (unlaunched)
 		p.nNC++
@@ -379,6 +379,42 @@ func (p *stateProfile) op() {
 			}
 		})
 		p.note("mutate NodeClaim %s", o.GetName())
+	case 16: // a bound pod is deleted and re-created at once under the same name on another node (StatefulSet-like);
+		// Karpenter never observes the gap, and the new node is often touched right afterwards
+		var bound []client.Object
+		for _, o := range st.List(gvkPod) {
+			if o.(*corev1.Pod).Spec.NodeName != "" {
+				bound = append(bound, o)
+			}
+		}
+		var nodes []client.Object
+		for _, o := range st.List(gvkNode) {
+			if trackable(o.(*corev1.Node)) && o.GetDeletionTimestamp() == nil {
+				nodes = append(nodes, o)
+			}
+		}
+		if len(bound) == 0 || len(nodes) < 2 {
+			return
+		}
+		old := bound[p.ch.Pick("state.pick", len(bound))].(*corev1.Pod)
+		dst := nodes[p.ch.Pick("state.pick", len(nodes))]
+		if dst.GetName() == old.Spec.NodeName {
+			return
+		}
+		pod := p.podSpecs[old.Name]
+		if pod == nil {
+			return
+		}
+		pod = pod.DeepCopy()
+		pod.Spec.NodeName = dst.GetName()
+		st.Remove(gvkPod, keyOf(old), nil)
+		must(st.Create(pod, nil))
+		touched := false
+		if p.ch.Pick("state.touchdst", 2) == 1 {
+			touched = true
+			st.Mutate(gvkNode, keyOf(dst), func(o client.Object) { o.(*corev1.Node).Labels["flip"] = fmt.Sprint(p.s.step) })
+		}
+		p.note("re-create Pod %s from node %s on node %s (destination touched=%v)", old.Name, old.Spec.NodeName, dst.GetName(), touched)
 	}
 }
 
